@@ -66,14 +66,38 @@ pub struct GenOpts {
     pub nan_ok: bool,
     pub fat_chance: (u64, u64),
     pub limit_overrides: bool,
+    /// chance of a compact all-integer prototype (3..6 records of 1..31 bits) with more than two full packets of points
+    pub compact_chance: (u64, u64),
 }
 impl Default for GenOpts {
     fn default() -> Self {
-        GenOpts { max_ops: 6, max_values: 60_000, density: 2, images: true, blobs: true, nan_ok: true, fat_chance: (1, 4), limit_overrides: false }
+        GenOpts { max_ops: 6, max_values: 60_000, density: 2, images: true, blobs: true, nan_ok: true, fat_chance: (1, 4), limit_overrides: false, compact_chance: (0, 1) }
     }
 }
 
+/// Compact integer prototype: every packet is filled to the last byte with sub-byte
+/// carries in every stream; several full packets of points.
+pub fn compact_cloud(s: &mut Src) -> CloudSpec {
+    use e57ref::fx::F64;
+    use e57ref::scene::RType;
+    let names = ["cartesianX", "cartesianY", "cartesianZ", "intensity", "rowIndex", "columnIndex"];
+    let k = 3 + s.below(4) as usize;
+    let mut proto = Vec::new();
+    for name in names.iter().take(k) {
+        let w = 1 + s.below(31) as u32;
+        let (min, max) = gen::int_range_of_width(s, w);
+        let ty = if matches!(*name, "rowIndex" | "columnIndex") || s.flag() { RType::Int { min, max } } else { RType::Scaled { min, max, scale: F64(0.001), offset: F64(0.0) } };
+        proto.push(Rec { prefix: None, name: name.to_string(), ty });
+    }
+    let cap = gen::cap_hint(&proto).unwrap_or(1000) as u32;
+    let n = (*s.pick(&[2 * cap + 1, 2 * cap + 2, 3 * cap + 1, 2 * cap - 1])).min(400_000);
+    CloudSpec { guid: gen::guid(s), proto, n, seed: s.u64(), nan_ok: true, meta: CloudMeta::default(), finalize: true, clear_limits: 0 }
+}
+
 pub fn cloud_spec(s: &mut Src, prefixes: &[String], o: &GenOpts) -> CloudSpec {
+    if s.chance(o.compact_chance.0, o.compact_chance.1) {
+        return compact_cloud(s);
+    }
     let fat = !prefixes.is_empty() && s.chance(o.fat_chance.0, o.fat_chance.1);
     let proto = gen::valid_proto(s, &ProtoOpts { prefixes: prefixes.to_vec(), fat });
     let n = gen::point_count(s, &proto, o.max_values);
@@ -647,7 +671,7 @@ pub fn sweep_programs(thorough: bool) -> Vec<Program> {
     let cap = |p: &[Rec]| gen::cap_hint(p).unwrap_or(100) as u32;
     let mut out = Vec::new();
     for res in 0..255u32 {
-        let mut variants: Vec<(&Vec<Rec>, u32)> = vec![(&p1, if res % 3 == 0 { cap(&p1) + 1 } else { 9 }), (&p2, 7)];
+        let mut variants: Vec<(&Vec<Rec>, u32)> = vec![(&p1, if res % 3 == 0 { cap(&p1) + 1 } else if res % 16 == 1 { 2 * cap(&p1) + 1 } else { 9 }), (&p2, if res % 32 == 5 { 2 * cap(&p2) + 2 } else { 7 })];
         if thorough {
             variants = vec![(&p1, cap(&p1) - 1), (&p1, cap(&p1)), (&p1, cap(&p1) + 1), (&p2, cap(&p2) + 1), (&p2, 7)];
         }
